@@ -513,6 +513,16 @@ fn c08_cands(rng: &mut Rng, _pre: &Snap, _t: Tier) -> Vec<Cand> {
     for s in ["\x1b[mx", "\x1b[;mx", "\x1b[;;1mx", "\x1b[1;;mx", "\x1b[38;5mx", "\x1b[38;;5;1mx", "\u{9b}31mx"] {
         v.push(Cand { ops: vec![Op::Feed(s.into())] });
     }
+    // the same glyph drawn twice on the same cell, the second time with a rendition that differs
+    // in exactly one attribute: the cell must carry exactly the second rendition
+    for (on, off) in [(1u32, 22u32), (3, 23), (4, 24), (5, 25), (7, 27), (9, 29), (31, 39), (44, 49), (92, 39), (103, 49)] {
+        let base = *rng.pick(&[0u32, 1, 4, 9, 33, 45]);
+        for (first, second) in [(on, off), (off, on)] {
+            let g = *rng.pick(&['x', ' ', 'M']);
+            v.push(Cand { ops: vec![Op::Api(Call::Sgr(vec![0, base, first])), Op::Api(Call::Draw(g.to_string())), Op::Api(Call::Backspace), Op::Api(Call::Sgr(vec![second])), Op::Api(Call::Draw(g.to_string()))] });
+            v.push(Cand { ops: vec![Op::Feed(format!("\x1b[0;{};{}m{}\x08\x1b[{}m{}", base, first, g, second, g))] });
+        }
+    }
     // an abandoned or skipped control sequence before the SGR must leave nothing behind
     for pre in ["\x1b[1;4\x18", "\x1b[7;\x1a", "\x1b[1;1;5;5;1$r", "\x1b[38;5;", "\x1b[38;5;\x18", "\x1b[4;9z", "\x1b]4;1;rgb:ff/00/00\x07", "\x1b[?1;5\x18"] {
         let code = *rng.pick(&SGR_DOC);
@@ -650,6 +660,17 @@ fn c12_cands(rng: &mut Rng, _pre: &Snap, _t: Tier) -> Vec<Cand> {
         }
         v.push(Cand { ops: vec![Op::Api(a), Op::Api(b)] });
     }
+    // the three "governing" modes, each switched and then exercised by drawing / newline
+    for (m, private) in [(4u32, false), (20, false), (7, true)] {
+        for set in [true, false] {
+            let sw = if set { SetMode(vec![m], private) } else { ResetMode(vec![m], private) };
+            let text = format!("{}{}", gen::text_run(rng, 3), "w");
+            v.push(Cand { ops: vec![Op::Api(sw.clone()), Op::Api(Draw(text.clone())), Op::Api(Linefeed), Op::Api(Draw("z".into()))] });
+            if let Some(seq) = sw.to_seq() {
+                v.push(Cand { ops: vec![Op::Feed(format!("{}w\nz", seq))] });
+            }
+        }
+    }
     // interleavings with DECSC/DECRC, resize and drawing
     for _ in 0..6 {
         let m = *rng.pick(&[3u32, 5, 6, 7, 25]);
@@ -720,8 +741,17 @@ pub static C12: StepCheck = StepCheck {
     id: "C12",
     rule: "per-step Hoare monitor: mode set, cursor, geometry, cells, rendition, hidden flag after SM/RM vs mode-set bookkeeping plus the documented side-effect table (DECTCEM, DECOM home, DECSCNM reverse + all rows dirty, DECCOLM 132/restore + erase + home; every other (number, private) pair: mode set only).",
     required: &["step-judged", "margins", "DECOM"],
-    owns: |c, _| if c.owner() == "C12" { Own::Full } else { Own::No },
-    profile: Profile::default,
+    owns: |c, _| match c {
+        Call::Draw(_) | Call::Linefeed | Call::Index => Own::Full, // "IRM, LNM and DECAWM govern insertion, newline and autowrap"
+        _ => {
+            if c.owner() == "C12" {
+                Own::Full
+            } else {
+                Own::No
+            }
+        }
+    },
+    profile: || Profile { pending_wrap: 35, irm: 25, ..Default::default() },
     cands: c12_cands,
     enumerated: c12_enum,
     geom: small_geom,
